@@ -267,7 +267,7 @@ def _kind(repo, fi, nested_names, c: ast.Call, values_name: str) -> Optional[str
         return "node"
     if f == f"{values_name}.append":
         return "value"
-    if f.split("%")[0] in nested_names:
+    if (f[:-5] if f.endswith("__def") else f) in nested_names:
         return "rec"
     return None
 
@@ -294,7 +294,7 @@ def check_c(ck, repo):
         if okd:
             (k, v), = st.items()
             m = re.match(r"^(.*)\.tree_\.value\[(.+), 0, 0\]$", k)
-            okd = m is not None and m.group(1) == rt and (m.group(2) == ":" or "%L" in m.group(2)) and ctext(v) == ctext(f"len({bins_p}) - {k}")
+            okd = m is not None and m.group(1) == rt and (m.group(2) == ":" or "__L" in m.group(2)) and ctext(v) == ctext(f"len({bins_p}) - {k}")
     ck.verdict(okd, "C12.c", fi, "descending bins", "descending bins: tree of the reversed bins with every value v remapped to len(bins) - v", "descending case is not `tree(reversed bins)` with every value v replaced by len(bins) - v")
     # nested builders
     nested = [f for f in repo.all_functions.values() if f.parent is fi]
@@ -359,8 +359,12 @@ def check_c(ck, repo):
     for p in asc:
         if p.ret == RAISE:
             continue
-        top = [c for c in p.calls if src_of(c.func).split("%")[0] in names]
-        ta = [(src_of(c.func).split("%")[0], [ast.unparse(x) for x in c.args]) for c in top]
+        def _nm(c_):
+            t_ = src_of(c_.func)
+            return t_[:-5] if t_.endswith("__def") else t_
+
+        top = [c for c in p.calls if _nm(c) in names]
+        ta = [(_nm(c), [ast.unparse(x) for x in c.args]) for c in top]
         M = ctext(f"len({bins_p}) // 2")
         want_ = [("add_root", [M]), ("add_nodes", ["0", "0", M, "True"]), ("add_nodes", ["0", M, f"len({bins_p})", "False"])]
         st = {k: ast.unparse(v) for k, v in p.stores.items()}
